@@ -68,6 +68,9 @@ fn assignment(k: usize) -> [T3; 4] {
 /// Reference semantics: any = OR (empty = FALSE), all = AND (empty = TRUE), negated = NOT.
 pub fn eval(c: &C, a: &[T3; 4]) -> Option<T3> {
     match c {
+        C::Atom(4) => Some(T),
+        C::Atom(5) => Some(F),
+        C::Atom(6) => Some(N),
         C::Atom(i) => Some(a[*i as usize]),
         C::Nothing => None,
         C::Group { any, neg, items } => {
@@ -82,11 +85,18 @@ pub fn eval(c: &C, a: &[T3; 4]) -> Option<T3> {
     }
 }
 
-const ATOMS: [&str; 4] = ["p", "q", "r", "s"];
+const ATOMS: [&str; 7] = ["p", "q", "r", "s", "TRUE", "FALSE", "NULL"];
 fn al(s: &str) -> Alias {
     Alias::new(s)
 }
 fn atom_expr(i: u8) -> SimpleExpr {
+    match i {
+        // boolean literal members
+        4 => return Expr::value(true),
+        5 => return Expr::value(false),
+        6 => return SimpleExpr::Value(Value::Bool(None)),
+        _ => {}
+    }
     if i == 3 {
         // the fourth atom is a plain custom fragment with a top-level OR (same truth value as `"s" = 1`): a fragment must
         // keep its own grouping inside the conjunction
@@ -298,13 +308,14 @@ fn eval_pexpr(e: &PExpr, a: &[T3; 4]) -> Result<T3, String> {
         PExpr::Un(op, x) if op == "NOT" => not3(eval_pexpr(x, a)?),
         PExpr::Kw(k) if k == "TRUE" => T,
         PExpr::Kw(k) if k == "FALSE" => F,
+        PExpr::Kw(k) if k == "NULL" => N,
         PExpr::Bin(op, l, r) if op == "=" => match (&**l, &**r) {
             (PExpr::Col(c), PExpr::Num(n)) if c.len() == 1 && n == "1" => {
-                let i = ATOMS.iter().position(|x| *x == c[0]).ok_or_else(|| format!("unknown atom {:?}", c))?;
+                let i = ATOMS[..4].iter().position(|x| *x == c[0]).ok_or_else(|| format!("unknown atom {:?}", c))?;
                 a[i]
             }
             // the bare word of the custom-fragment atom
-            (PExpr::Kw(c), PExpr::Num(n)) if n == "1" && ATOMS.contains(&c.as_str()) => a[ATOMS.iter().position(|x| *x == c.as_str()).unwrap()],
+            (PExpr::Kw(c), PExpr::Num(n)) if n == "1" && ATOMS[..4].contains(&c.as_str()) => a[ATOMS[..4].iter().position(|x| *x == c.as_str()).unwrap()],
             _ => return Err(format!("unexpected comparison {:?}", e)),
         },
         other => return Err(format!("unexpected predicate node {:?}", other)),
@@ -485,6 +496,7 @@ fn gen_groups(depth: usize, width: usize, budget: usize) -> Vec<(C, usize)> {
 /// number the atoms left to right (mod 4) so that sibling atoms differ
 fn number_atoms(c: &mut C, next: &mut u8) {
     match c {
+        C::Atom(i) if *i >= 4 => {}
         C::Atom(i) => {
             *i = *next % 4;
             *next += 1;
@@ -645,6 +657,109 @@ pub fn run(rep: &Arc<Report>) {
             }
         }
     });
+    // (i-b) boolean literal members: every tree of the small set with one atom replaced, in turn, by TRUE, FALSE and the
+    //       typed NULL literal, in WHERE, HAVING and CASE WHEN
+    let mut with_literals: Vec<C> = vec![];
+    fn atoms_in(c: &C) -> usize {
+        match c {
+            C::Atom(_) => 1,
+            C::Nothing => 0,
+            C::Group { items, .. } => items.iter().map(atoms_in).sum(),
+        }
+    }
+    fn replace_nth(c: &C, n: &mut usize, lit: u8) -> C {
+        match c {
+            C::Atom(i) => {
+                let r = if *n == 0 { C::Atom(lit) } else { C::Atom(*i) };
+                *n = n.wrapping_sub(1);
+                r
+            }
+            C::Nothing => C::Nothing,
+            C::Group { any, neg, items } => C::Group { any: *any, neg: *neg, items: items.iter().map(|x| replace_nth(x, n, lit)).collect() },
+        }
+    }
+    for t in &small {
+        for k in 0..atoms_in(t) {
+            for lit in [4u8, 5, 6] {
+                let mut n = k;
+                with_literals.push(replace_nth(t, &mut n, lit));
+            }
+        }
+    }
+    par_items(&with_literals, |_w, t| {
+        let calls = [Call::Cond(t.clone())];
+        for ctx in [Ctx::SelectWhere, Ctx::Having, Ctx::CaseWhen, Ctx::DeleteWhere] {
+            for d in DIALECTS {
+                match check_calls(ctx, d, &calls, Some(&st)) {
+                    Ok(true) => evals.inc(),
+                    Ok(false) => {}
+                    Err((sig, _)) => {
+                        evals.inc();
+                        record(rep, ctx, d, &calls, &sig);
+                    }
+                }
+            }
+        }
+    });
+    rep.set("trees_with_boolean_literal_members", json!(with_literals.len()));
+    // (i-c) CASE with two WHEN branches (equal and different results): the value is that of the first branch whose condition
+    //       is TRUE; executed on the engine
+    let branch_pool: Vec<C> = gen_groups(1, 2, 3).into_iter().map(|(mut c, _)| { let mut n = 0; number_atoms(&mut c, &mut n); c }).filter(|c| atoms_in(c) > 0).collect();
+    let case_cases = Counter::new();
+    par_items(&branch_pool, |_w, c1| {
+        for c2 in &branch_pool {
+            // shift the second branch's atoms so that the two conditions are independent
+            fn shift(c: &C) -> C {
+                match c {
+                    C::Atom(i) if *i < 4 => C::Atom((*i + 2) % 4),
+                    C::Group { any, neg, items } => C::Group { any: *any, neg: *neg, items: items.iter().map(shift).collect() },
+                    other => other.clone(),
+                }
+            }
+            let c2 = shift(c2);
+            for (r1, r2) in [(1, 1), (1, 0), (0, 1)] {
+                case_cases.inc();
+                let cond = |c: &C| match c {
+                    C::Group { any, neg, items } => to_condition(*any, *neg, items),
+                    C::Atom(i) => atom_expr(*i).into_condition(),
+                    C::Nothing => Cond::all(),
+                };
+                let sql = match catch(|| {
+                    let mut s = Query::select();
+                    s.column(al("id")).from(al("tv")).and_where(Expr::expr(CaseStatement::new().case(cond(c1), r1).case(cond(&c2), r2).finally(0)).eq(1));
+                    s.to_string(SqliteQueryBuilder)
+                }) {
+                    Ok(s) => s,
+                    Err(p) => {
+                        rep.raw_failures.inc();
+                        rep.violation(Violation { key: "case-branches|sqlite|panic".into(), what: format!("CASE WHEN {} THEN {r1} WHEN {} THEN {r2}: rendering panicked: {p}", show(c1), show(&c2)), case: json!({"case_branches": true}) });
+                        continue;
+                    }
+                };
+                let want: Vec<i64> = (0..81usize)
+                    .filter(|k| {
+                        let a = assignment(*k);
+                        let v = if eval(c1, &a) == Some(T) { r1 } else if eval(&c2, &a) == Some(T) { r2 } else { 0 };
+                        v == 1
+                    })
+                    .map(|k| k as i64)
+                    .collect();
+                st.engine.inc();
+                match engine_true_ids(Ctx::CaseWhen, &sql) {
+                    Ok(e) if e == want => {}
+                    Ok(e) => {
+                        rep.raw_failures.inc();
+                        rep.violation(Violation { key: format!("case-branches|sqlite|engine-rows-differ|results {}", if r1 == r2 { "equal" } else { "different" }), what: format!("CASE WHEN {} THEN {r1} WHEN {} THEN {r2} ELSE 0: sqlite3 on {sql:?} is 1 for assignments {:?} (only in engine) / misses {:?}", show(c1), show(&c2), diff(&e, &want), diff(&want, &e)), case: json!({"case_branches": true}) });
+                    }
+                    Err(m) => {
+                        rep.raw_failures.inc();
+                        rep.violation(Violation { key: "case-branches|sqlite|engine-rejects".into(), what: format!("sqlite3 rejects {sql:?}: {m}"), case: json!({"case_branches": true}) });
+                    }
+                }
+            }
+        }
+    });
+    rep.set("case_two_branch_statements_executed", json!(case_cases.get()));
     par_items(&small, |_w, t| {
         let calls = [Call::Cond(t.clone())];
         for ctx in CTXS.iter().skip(1) {
